@@ -102,8 +102,12 @@ func (kc *KeepClient) uploadToKeepServer(host string, hash string, body io.Reade
 	respbody, err2 := ioutil.ReadAll(&io.LimitedReader{R: resp.Body, N: 4096})
 	response := strings.TrimSpace(string(respbody))
 	if err2 != nil && err2 != io.EOF {
+		// The response body (the signed locator) is incomplete:
+		// report this like a failed connection (status 0, no
+		// replicas) rather than with the response's status
+		// code, which putReplicas would count as a success.
 		DebugPrintf("DEBUG: [%s] Upload %v error: %v response: %v", reqid, url, err2.Error(), response)
-		uploadStatusChan <- uploadStatus{err2, url, resp.StatusCode, rep, response}
+		uploadStatusChan <- uploadStatus{err2, url, 0, 0, response}
 	} else if resp.StatusCode == http.StatusOK {
 		DebugPrintf("DEBUG: [%s] Upload %v success", reqid, url)
 		uploadStatusChan <- uploadStatus{nil, url, resp.StatusCode, rep, response}
